@@ -206,6 +206,10 @@ def nontrivial(lines):
 # taint flags (model ghosts) that put a trace outside a property's quantifier
 PRECOND = {f"C{i:02d}": ("self", "iter", "size", "unlock") for i in range(1, 16)}
 PRECOND["C15"] = ("self", "iter", "unlock")
+# D11 (self-cancellation from a final segment) is an open finding of C03 and C12: such traces are
+# judged, and the failing clause is explained by KNOWN_FINDINGS.json
+PRECOND["C03"] = ("iter", "size", "unlock")
+PRECOND["C12"] = ("iter", "size", "unlock")
 
 
 def taints(r):
